@@ -554,9 +554,6 @@ class Parser:
         if seen_joined and any(isinstance(v, ast.Constant) and isinstance(v.value, bytes) for v in values):
             self.raise_syntax_error_known_range("cannot mix bytes and nonbytes literals", parts[0], parts[-1])
 
-        if seen_joined:  # an empty plain literal next to an f-string contributes nothing (as in CPython)
-            values = [v for v in values if not (isinstance(v, ast.Constant) and v.value == "")]
-
         consolidated: list[Any] = []  # ast.Constant | ast.FormattedValue
         for p in values:
             if consolidated and isinstance(consolidated[-1], ast.Constant) and isinstance(p, ast.Constant):
@@ -565,6 +562,9 @@ class Parser:
                 consolidated[-1].end_col_offset = p.end_col_offset
             else:
                 consolidated.append(p)
+
+        if seen_joined:  # a constant that is still empty after merging contributes nothing (as in CPython)
+            consolidated = [v for v in consolidated if not (isinstance(v, ast.Constant) and v.value == "")]
 
         if not seen_joined and len(values) == 1 and isinstance(values[0], ast.Constant):
             node: ast.Constant | ast.JoinedStr | ast.Call = values[0]
